@@ -813,4 +813,107 @@ def getRows (iters : List Bool) : Outcome Nat :=
   (getRowsLoop iters 0 0 0).bind fun (len, maxVal) =>
     if 0 ≤ maxVal ∧ maxVal ≤ (len : Int) then .ok maxVal.toNat else .panic
 
+/-! ## cell images: value metadata and rich values (`getImageCellRel`, picture.go) -/
+
+/-- `getImageCellRel` for a cell with `vm` and value `#VALUE!`: `vm` is the decoded `uint` attribute (the
+subtraction `*c.Vm-1` wraps at 0), `nBk` = `len(vmd.Bk)` (`none`: no value metadata), `rcLen` = number of
+`<rc>` in the addressed block, `v` = the `v` attribute of its first record (any int), `nRv` = number of
+rich values.  `true` = a rich value was selected. -/
+def imageCellRel (vm : Nat) (nBk : Option Nat) (rcLen : Nat → Nat) (v : Int) (nRv : Nat) : Outcome Bool :=
+  match nBk with
+  | none => .ok false
+  | some n =>
+    if vm > n then .ok false
+    else
+      let i : Nat := if vm = 0 then 18446744073709551615 else vm - 1   -- uint arithmetic
+      if ¬ (i < n) then .panic                                          -- vmd.Bk[*c.Vm-1]
+      else if rcLen i = 0 then .ok false
+      else if ¬ (0 < rcLen i) then .panic                               -- .Rc[0]
+      else if v ≥ (nRv : Int) then .ok false
+      else if ¬ inRange v nRv then .panic                               -- richValue.Rv[richValueIdx]
+      else .ok true
+
+/-! ## the streaming row iterator (`Rows.Next`, `Rows.Columns`, rows.go)
+
+The XML decoder delivers tokens; what the iterator looks at: `<row>` start elements with their `r`
+attribute (0 when absent), `<c>` start elements (handled by `rowXMLHandler`), `</sheetData>`, anything else. -/
+
+inductive Tok where
+  | row (r : Int)
+  /-- `<c>`: `col` = column of a parsable `r` attribute, `bad` = unparsable `r`, `val` = yields a value -/
+  | cell (col : Option Int) (bad : Bool) (val : Bool)
+  | endData
+  | other
+  deriving Repr, DecidableEq
+
+structure RowsState where
+  cur : Int
+  seek : Int
+  /-- the `<row>` token `Next` keeps for `Columns` (its `r`) -/
+  held : Option Int
+  toks : List Tok
+  deriving Repr
+
+/-- the token loop of `Next` -/
+def nextScan (cur seek : Int) : List Tok → Bool × Bool × RowsState
+  | [] => (false, false, { cur := cur, seek := seek, held := none, toks := [] })
+  | .row r :: rest =>
+    if r ≠ 0 then
+      (if r > (Facts.TotalRows : Int) then (false, true, { cur := cur + 1, seek := seek, held := none, toks := rest })
+       else (true, false, { cur := r, seek := seek, held := some r, toks := rest }))
+    else (true, false, { cur := cur + 1, seek := seek, held := some r, toks := rest })
+  | .endData :: rest => (false, false, { cur := cur, seek := seek, held := none, toks := rest })
+  | _ :: rest => nextScan cur seek rest
+
+/-- `Rows.Next`: (found a row, ErrMaxRows, state) -/
+def rowsNext (s : RowsState) : Bool × Bool × RowsState :=
+  if s.cur ≥ s.seek + 1 then (true, false, { s with seek := s.seek + 1 })
+  else
+    let (ok, e, s') := nextScan s.cur (s.seek + 1) s.toks
+    (ok, e, { s' with held := if ok then s'.held else s.held })
+
+inductive ColErr where
+  | none | maxRows | other
+  deriving Repr, DecidableEq
+
+/-- the token loop of `Columns`; `cells` = `len(rowIterator.cells)`, `cellCol` the running column -/
+def columnsScan (cur seek : Int) (heldNil : Bool) (cells : Nat) (cellCol : Int) : List Tok → Nat × ColErr × RowsState
+  | [] => (cells, .none, { cur := cur, seek := seek, held := none, toks := [] })
+  | .row r :: rest =>
+    if r > (Facts.TotalRows : Int) then (cells, .maxRows, { cur := cur, seek := seek, held := none, toks := rest })
+    else
+      let cur1 := if r ≠ 0 then r else if heldNil then cur + 1 else cur
+      if cur1 > seek then (cells, .none, { cur := cur1, seek := seek, held := none, toks := rest })
+      else columnsScan cur1 seek true cells cellCol rest
+  | .cell col bad val :: rest =>
+    if bad then (cells, .other, { cur := cur, seek := seek, held := none, toks := rest })
+    else
+      let cc : Int := match col with | some c => c | none => cellCol + 1
+      let blank := cc - (cells : Int)
+      let cells1 := if val then cells + (blank - 1).toNat + 1 else cells
+      columnsScan cur seek true cells1 cc rest
+  | .endData :: rest => (cells, .none, { cur := cur, seek := seek, held := none, toks := rest })
+  | .other :: rest => columnsScan cur seek true cells cellCol rest
+
+/-- `Rows.Columns`: (row length, error, state) -/
+def rowsColumns (s : RowsState) : Nat × ColErr × RowsState :=
+  if s.cur > s.seek then (0, .none, s)
+  else match s.held with
+    | some r => columnsScan s.cur s.seek false 0 0 (.row r :: s.toks)
+    | none => columnsScan s.cur s.seek true 0 0 s.toks
+
+/-- the loop of `GetRows` on top of the iterator: lengths of the rows delivered (`fuel` bounds the iterations) -/
+def getRowsIter : Nat → RowsState → List Nat → List Nat × Bool
+  | 0, _, acc => (acc.reverse, false)
+  | fuel + 1, s, acc =>
+    let (ok, e, s1) := rowsNext s
+    if e then (acc.reverse, true)
+    else if !ok then (acc.reverse, false)
+    else
+      let (n, ce, s2) := rowsColumns s1
+      match ce with
+      | .maxRows => (acc.reverse, true)
+      | .other => (acc.reverse, false)
+      | .none => getRowsIter fuel s2 (n :: acc)
+
 end XlModel.Decode
